@@ -156,11 +156,21 @@ func (p *Portfolio) solvePrunedT(query string, ms int, all3 bool) SolveResult {
 	if all3 {
 		race = solvers[:3]
 	}
+	seeds := make([]int, len(race))
+	for i := range seeds {
+		seeds[i] = p.seed
+	}
+	if all3 {
+		// z3 4.8 a second time under another seed: it decides most of these in well under a second,
+		// but which seed does is not stable across unrelated changes of the query text
+		race = append(append([]Solver{}, race...), solvers[1])
+		seeds = append(seeds, p.seed+7)
+	}
 	ch := make(chan SolveResult, len(race))
 	rctx, rcancel := context.WithCancel(context.Background())
 	defer rcancel() // kills the losers
-	for _, sv := range race {
-		go func(sv Solver) { ch <- runSolverCtx(rctx, sv, query+"(check-sat)\n", ms, p.seed) }(sv)
+	for i, sv := range race {
+		go func(sv Solver, seed int) { ch <- runSolverCtx(rctx, sv, query+"(check-sat)\n", ms, seed) }(sv, seeds[i])
 	}
 	r := <-ch
 	p.account(r)
